@@ -8,61 +8,61 @@ BASELINE = "cd /repo && /venv/bin/python -m pytest -ra -q -p no:cacheprovider --
 # id -> (engine, technique, level text, level note, design ref)
 CHECKS = {
  'C10': ('E1 product', 'bounded-exhaustive enumeration of (structure, index subset, listing order, container) against a reference model',
-         'Every deletion of every non-empty index subset (every listing order for |S|<=3, three containers) and every pop on chains of up to 6 (quick) / 7 (thorough) atoms with all term kinds, duplicate terms, extra columns, with and without tables, executed on the real Atoms and compared atom-by-atom and term-by-term with RefStructure.delete. Exhaustive within the size bound.',
+         'Every deletion of every non-empty index subset (every listing order for |S|<=3, three containers) and every pop(i), i in -n..n-1, on chains of up to 6 (quick) / 7 (thorough) atoms in 28 variants (all term kinds or a subset of kinds, duplicate terms, ring angles, non-ascending tuples, extra columns, with and without tables), plus 60- and 400-atom structures with few terms and 8 scattered deletion sets, executed on the real Atoms and compared atom-by-atom and term-by-term with RefStructure.delete. Exhaustive within the size bound.',
          'Coverage statement over the stated structure family only; trusted: CPython, numpy, mc/ref/structure.py (self-tested).', '3/C10'),
  'C11': ('E1 product', 'bounded-exhaustive enumeration of (A, B, identity map, mode, term direction) against a reference model',
-         'Every pair from 10 base structures (incl. empty, emptied-with-tables, tables-without-terms) x 9 fragments x every injective partial identity map x 5 modes (default merge, explicit offsets, twice, twice re-mapped, shared ids) x forward/reversed term listing, executed on the real Atoms.extend/extend_types and compared with RefStructure.extend (resolved view, table-less ids up to bijection); the argument must stay unmodified. Exhaustive within |A|<=4, |B|<=3 (quick) / 4 (thorough).',
+         'Every pair from 12 base structures (incl. empty, emptied-with-tables, tables-without-terms, term-kind subsets) x 14 fragments (term-kind subsets, same / different extra labels, long values) x every injective partial identity map x 5 modes (default merge, explicit offsets, twice, twice re-mapped, shared ids) x forward/reversed term listing, executed on the real Atoms.extend/extend_types and compared with RefStructure.extend (resolved view, table-less ids up to bijection); the argument must stay unmodified. Exhaustive within |A|<=4, |B|<=3 (quick) / 4 (thorough).',
          'Inside the compatibility domain (both or neither side define coefficient tables). Trusted: numpy, mc/ref/structure.py.', '3/C11'),
  'C12': ('E1 product', 'bounded-exhaustive enumeration of (cell, structure, replication triple) against a reference model',
-         'Every (a,b,c) in {1..3}^3 (quick) / {1..4}^3 (thorough) x 5-6 cells (orthorhombic, triclinic both tilt signs, arbitrarily oriented) x 5 structures (impropers, extra columns, no tables, duplicate bond): cell rows, one replica per lattice offset with identical resolved record, terms per image with identical type ids, tables, original untouched, 1x1x1 identity.',
+         'Every (a,b,c) in {1..3}^3 (quick) / {1..4}^3 (thorough) x 5-6 cells (orthorhombic, triclinic both tilt signs, arbitrarily oriented) x 9 structures (impropers, extra columns, no tables, duplicate bond, exactly one bond, impropers only, angles+impropers only, dihedrals only): cell rows, one replica per lattice offset with identical resolved record, terms per image with identical type ids, tables, original untouched, 1x1x1 identity.',
          'Coverage over the stated menus. Trusted: numpy, mc/ref/structure.py.', '3/C12'),
  'C14': ('E1 product', 'exhaustive enumeration of the whole mass table x boundary offsets x tolerances against a nearest-within-tolerance oracle',
-         'Finite domain: all 117 table entries x 9 (quick) / 17 (thorough) offsets x 3 tolerances, every midpoint and wide gap between mass-adjacent elements, masses below/above the table; each through the helper and through load_lmpdat alone / mixed with a valid / mixed with a non-atomic type (all-or-nothing fallback), plus a write/read cycle per element.',
+         'Finite domain: all 117 table entries x 9 (quick) / 17 (thorough) offsets x 3 tolerances, every midpoint and wide gap between mass-adjacent elements, masses below/above the table; call histories with changing tolerances in one process; each through the helper and through load_lmpdat alone / mixed with a valid / mixed with a non-atomic type (all-or-nothing fallback), plus a write/read cycle per element.',
          'The mass table is the parameter of the property. Masses within 1e-9 of a tolerance boundary are skipped.', '3/C14'),
  'C16': ('E1 product', 'bounded-exhaustive enumeration of CML documents against the generating description',
-         'n<=4 atoms (thorough 5) x id schemes (sequential, reversed, every permutation, arbitrary strings, ids colliding with positions) x every bond set x 3 reference directions x 2 orders x 3 coordinate menus x 3 document flavours x 4 load routes; elements, coordinates, bonds in document order compared exactly.',
+         'n<=4 atoms (thorough 5) x id schemes (sequential, reversed, every permutation, arbitrary strings, ids colliding with positions) x every bond set x 3 reference directions x 2 orders x 3 coordinate menus x 3 document flavours x 5 load routes (incl. explicit filetype on a path with another extension); elements, coordinates, bonds in document order compared exactly.',
          'Documents without XML namespace (the flavour of the repository examples). Trusted: xml.etree, mc/ref/cml.py.', '3/C16'),
  'C17': ('E1 product', 'exhaustive enumeration of all element pairs x cutoff sides x image placements, plus assemblies under shift/permutation, against a minimum-image reference',
-         'All 4753 unordered pairs of the 97 tabulated symbols x {cutoff-1e-3, cutoff+1e-3} x 7 placements (inside, low/high face, edge, corner) x 4 cells (none, cubic, triclinic +/-) x both atom orders; 4 mixed assemblies in 6 cells under shift-and-wrap and 4 permutations, against ref_bonds over images -2..2.',
+         'All 4753 unordered pairs of the 97 tabulated symbols x {cutoff-1e-3, cutoff+1e-3, exactly the cutoff} x 7 placements (inside, low/high face, edge, corner) x 4 cells (none, cubic, triclinic +/-) x both atom orders; 4 mixed assemblies in 8 cells under shift-and-wrap and 4 permutations; heavy pairs on a fractional-separation grid in 4 narrow cells (widths 5.5-6.1 A), against ref_bonds over images -2..2.',
          'Radius / non-metal tables frozen at the pinned commit. Trusted: numpy, mc/ref/bonds.py.', '3/C17'),
  'C18': ('E1 product', 'exhaustive enumeration of the whole UFF type table (pairs, triples, quadruples) against vectorised reference equations',
-         'Finite domain (221 types): all 221^2 ordered pairs x 4 bond orders x 3 rule sets; all 221^3 ordered triples plus explicit bond orders on a 45^3 sub-table; quadruples: quick all 221^2 central pairs x 20^2 outer class representatives (both directions), thorough all 221^4 ordered quadruples; 5 further multiplicities; all 221 pair coefficients. Values within 1e-9 relative of mc/ref/uff.py, finiteness, positivity, style and (b,n), torsion case table incl. None / unsupported, reversal.',
+         'Finite domain (221 types): all 221^2 ordered pairs x 4 bond orders x 5 rule sets; all 221^3 ordered triples plus explicit bond orders and single-bond rules on a 45^3 sub-table; torsions with explicit bond orders and rules on all central pairs; quadruples: quick all 221^2 central pairs x 20^2 outer class representatives (both directions), thorough all 221^4 ordered quadruples; 5 further multiplicities; all 221 pair coefficients. Values within 1e-9 relative of mc/ref/uff.py, finiteness, positivity, style and (b,n), torsion case table incl. None / unsupported, reversal.',
          'The UFF4MOF table is the parameter of the property; reference equations written from Rappe et al. 1992. Reversal identity is read as 1e-9 relative (DESIGN section 2).', '3/C18'),
  'C19': ('E1 product', 'exhaustive enumeration of labelled bond graphs x presentations and of graphs x type assignments x exclusion sets x renamings against set definitions and the reference equations',
-         'Enumeration: all 263 (quick, n<=5) / 4224 (thorough, n<=6) labelled triangle-free graphs without isolated vertices x 7+ bond-list presentations. Typing: all 26 graphs n<=4 x all 6^n assignments of a 6-type alphabet x every exclusion subset x 3 term-list presentations x renamings, and 237 graphs n=5 x 16 covering assignments; partition = reversal-canonical sequence (+M), coefficient text = documented format of the reference values, None-torsions dropped, unsupported refused, retype/pair tables.',
+         'Enumeration: all 263 (quick, n<=5) / 4224 (thorough, n<=6) labelled triangle-free graphs without isolated vertices x 7+ bond-list presentations. Typing: all 26 graphs n<=4 x all 6^n assignments of a 6-type alphabet x every exclusion subset x 3 term-list presentations x renamings, and 237 graphs n=5 x 16 covering assignments + all 3^5 assignments of a 3-type alphabet; partition = reversal-canonical sequence (+M), coefficient text = documented format of the reference values, None-torsions dropped, unsupported refused, retype/pair tables.',
          'Torsion multiplicity M is counted before exclusion (implementation-documented). Trusted: networkx-free reference in mc/checks/C19.py, mc/ref/uff.py.', '3/C19'),
  'C13': ('E1 product', 'bounded-exhaustive enumeration of structure shapes, each written, parsed by an independent read_data-style reader, re-read and re-written',
-         '5 cells (orthorhombic, both tilt signs, tilt printing as 0, none) x per-kind (types, terms) shapes (8 fixed; thorough: full 6^4 product) x tables x 10 coefficient strings (keywords, multiple blanks, scientific notation, trailing comments) x charges x coordinates x labels x atom-type layouts x both atom styles; (a) mc/ref/lammps.py must read exactly the structure from the text and find it internally consistent, (b) load_lmpdat reproduces it, (c) save(load(.)) is a fixed point after one pass, (d) path / file-object routes agree.',
+         '8 cells (orthorhombic, mixed / all-negative / yz-only / tiny 2e-4 tilts, tilt printing as 0, none) x per-kind (types, terms) shapes (8 fixed; thorough: full 6^4 product) x tables x 10 coefficient strings (keywords, multiple blanks, scientific notation, trailing comments) x charges x coordinates x labels x atom-type layouts x both atom styles; (a) mc/ref/lammps.py must read exactly the structure from the text and find it internally consistent, (b) load_lmpdat reproduces it, (c) save(load(.)) is a fixed point after one pass, (d) path / file-object / explicit-filetype routes agree.',
          'Coefficient strings with at most one trailing comment; LAMMPS-oriented cells. Trusted: mc/ref/lammps.py (written from the read_data documentation).', '3/C13'),
  'C15': ('E1 product', 'bounded-exhaustive enumeration of structure shapes, each written, parsed by two independent readers, re-read and re-written, plus a hand-written read-side menu',
-         '5 cells x 4 coordinate menus (generic, grid, outside, boundary) x 7 term shapes incl. impropers x 0/1/2 extra columns per kind x charges x fractional/Cartesian: independent tokenizer and ase.io.read agree with the text; re-read reproduces elements, cell parameters, fractional coordinates mod 1, charges, terms, extra columns; T2==T1 for in-cell inputs, T3==T2 always; 11 hand-written files (uncertainties, Cartesian, H-M names accepted/rejected, wrap).',
+         '5 cells x 4 coordinate menus (generic, grid, outside, boundary) x 8 term shapes incl. impropers (thorough: all 81 count tuples), force-field typed structures with two types per element x 0/1/2 extra columns per kind x charges x fractional/Cartesian: independent tokenizer and ase.io.read agree with the text; re-read reproduces elements, cell parameters, fractional coordinates mod 1, charges, terms, extra columns; T2==T1 for in-cell inputs, T3==T2 always; 21 hand-written files (uncertainties, Cartesian, H-M names accepted/rejected, wrap).',
          'Installed PyCifRW 5.0.1 / ase 3.29. Cartesian output only for standard-orientation cells. Trusted: mc/ref/cif.py, ase.io.read.', '3/C15'),
  'C01': ('E1+E2', 'bounded-exhaustive enumeration of (cell, pattern, pose, placement, decoy, tolerance, noise, hints) with stateless exploration of every random-draw answer; per-match rigid-image oracle',
-         'Complete sub-products of 6 cells x 11 patterns (1-7 atoms; symmetric, collinear, planar, chiral) x 9/20 poses (cube rotations incl. antiparallel flips, near-degenerate, generic) x boundary-crossing placements x 6 decoy kinds x 3 tolerances x noise, multi-copy layouts, and every valid hint form (index 0 included); every answer of random.choice / np.random.random within deviation bound 1 (quick) / 2 (thorough). Each reported match: distinct in-range indices, pattern elements in order, positions = stored + lattice vector, returned proper rotation + best translation within atol, never OUT (mirror images), return arrays consistent.',
+         'Complete sub-products of 8 cells (orthorhombic, triclinic with both tilt signs and both orders of face areas, arbitrarily oriented, upper-triangular) x 14 patterns (1-7 atoms; symmetric, collinear along x / y, planar, chiral, mirror-plane-only) x 8/17 poses (cube rotations incl. antiparallel flips, near-degenerate, generic) x boundary-crossing placements x 8 decoy kinds (mirror image, near miss, partial, distractors, second copy, look-alike element, bent collinear triple) x 4 tolerances (0.001-0.2) x noise, multi-copy layouts, and every valid hint form (index 0 included); every answer of random.choice / np.random.random within deviation bound 1 (quick) / 2 (thorough). Each reported match: distinct in-range indices, pattern elements in order, positions = stored + lattice vector, returned proper rotation + best translation within atol, never OUT (mirror images), return arrays consistent.',
          'Coverage over the finite menus, not R^3. Draw trees are cut at the deviation bound / 60 (quick) or 300 (thorough) executions per scenario; the evidence counts bounded_out alternatives. Trusted: numpy, scipy Rotation.', '3/C01, 2'),
  'C02': ('E1+E2', 'same enumeration as C01 against a brute-force periodic reference matcher with IN/GRAY/OUT classes',
          'For every scenario and draw answer: IN <= reported <= IN u GRAY as sets of sorted unit-cell index tuples, no group twice; reference = all ordered image tuples over images -2..2 with Kabsch fits; planted copies are asserted IN (generator guard).',
          'Same menus as C01 without hints. GRAY groups (none occur on the generated menus) may be reported or not. Trusted: mc/ref/geom.py (self-tested).', '3/C02, 2'),
  'C03': ('E1+E2', 'metamorphic enumeration: every base structure x relation menu (shift-and-wrap, permutation, pattern motion, hint forms, draw answers, supercells), generated and real MOF files',
-         '792 (quick) / 4752 (thorough) base structures x 4/10 shifts, permutations (all n! for <=5 atoms), 3/8 pattern motions, every valid hint form for patterns <=4/5 atoms, every draw answer within the bound, supercells ({1,2,3}^3 for <=6 atoms in thorough); plus uio66, uio66-triclinic, hkust-1 with linker / benzene / metal-centre / single-atom patterns. Canonical match sets may differ only in groups that are GRAY by their measured deviation; supercell counts exactly a*b*c per occurrence.',
+         '1344 (quick) / 8064 (thorough) base structures x 4/10 shifts, permutations (all n! for <=5 atoms), 3/8 pattern motions, another numbering of the atom types of pattern and structure, every valid hint form for patterns <=4/5 atoms, every draw answer within the bound, supercells ({1,2,3}^3 for <=6 atoms in thorough); plus uio66, uio66-triclinic, hkust-1 with linker / benzene / metal-centre / single-atom patterns. Canonical match sets may differ only in groups that are GRAY by their measured deviation; supercell counts exactly a*b*c per occurrence.',
          'Differences are excused only when c*eps > 0.8 atol for the measured Kabsch deviation eps (binding for all exact and low-noise copies). Trusted: numpy.', '3/C03, 2'),
  'C04': ('E1+E2', 'bounded-exhaustive enumeration of (cell, pattern, pose, placement, pattern pair, replace_all, fraction, copies) with every random.sample / tie-break answer; oracle driven by the recorded matches',
-         '6 cells x 6 (thorough 8) patterns x poses x placements x 7 (search, replacement) pairs (empty, subset, one/all elements changed, grown, identical, disjoint larger) x replace_all, plus 2-4 planted copies x 6 fractions; every draw answer within the deviation bound. Replaced count within 1/2 of f*M and equal to the returned count, replaced = sampled matches, bystanders bit-identical, retained atoms in place, inserted atoms with the pattern\'s element/charge/group, per-element count identity, inputs untouched.',
+         '8 cells x 6 (thorough 8) patterns x poses x placements x 11 (search, replacement) pairs (empty, subset, one/all elements changed, grown, identical, shared atoms listed reversed, far-reaching, one atom displaced by 0.04 A, disjoint larger) x replace_all, plus 2-4 planted copies x 6 fractions with ordered sample answers, plus a tolerance sub-product (near-miss copy x atol 0.05/0.2/0.3) compared with a direct search; every draw answer within the deviation bound. With replace_all the atoms common to both patterns must come back in place. Replaced count within 1/2 of f*M and equal to the returned count, replaced = sampled matches, bystanders bit-identical, retained atoms in place, inserted atoms with the pattern\'s element/charge/group, per-element count identity, inputs untouched.',
          'Matches are recorded at the module seam mofun.mofun.find_pattern_in_structure. Planted copies are disjoint. Positions of inserted atoms are C05\'s business.', '3/C04'),
  'C05': ('E1+E2', 'bounded-exhaustive enumeration of inserting replacements in all cell shapes with a Kabsch rigid-image oracle modulo the lattice, plus the joint-motion relation',
-         '6 cells (both tilt signs, arbitrarily oriented) x 9 patterns (symmetric and collinear included) x poses x boundary placements x 4 inserting pairs x replace_all, 2-3 copies; per replaced match the matched + inserted atoms must be one proper rigid image of search + replacement coordinates within c\'*eps + 1e-6 with inserted atoms taken at the lattice image nearest the prediction; fractional coordinates in [0,1]; 3/6 joint rigid motions of both patterns give the same structure mod lattice.',
+         '8 cells (both tilt signs, arbitrarily oriented, upper-triangular) x 9 patterns (symmetric and collinear included) x poses x corner and single-face placements x 7 inserting pairs (incl. atoms 12 and 21 A away) x replace_all, 2-3 copies, partial replacement with every ordered sample answer; per replaced match the matched + inserted atoms must be one proper rigid image of search + replacement coordinates within c\'*eps + 1e-6 with inserted atoms taken at the lattice image nearest the prediction; fractional coordinates in [0,1]; 3/6 joint rigid motions of both patterns give the same structure mod lattice.',
          'Coverage over the finite menus. For one-atom / collinear search patterns the rotation about the axis is free, so only the rigid-image clause applies to them.', '3/C05'),
  'C07': ('E1+E2', 'exhaustive enumeration of overlap configurations x pattern pairs x flags with the full draw tree; oracle computed from the recorded matches',
-         '6 structures whose occurrences share atoms (chains, star, homonuclear chains, control) x 3 search patterns x 7 replacements (shared atom retained by both / removed by one / by both; empty; larger) x 3 placements (interior, across a face, across a corner) x cells x replace_all x ignore flag x fractions {1/2, 1}, every sample subset and tie-break answer (unbounded). AtomsShouldNotBeDeletedTwice iff an atom is in two selected deletion sets, the replacement is non-empty and the flag is off; otherwise atom-count identity.',
+         '6 structures whose occurrences share atoms (chains, star, homonuclear chains, control) x 3 search patterns x 10 replacements (incl. shared atoms listed in another order, same element displaced by 0.04 A) (shared atom retained by both / removed by one / by both; empty; larger) x 3 placements (interior, across a face, across a corner) x cells x replace_all x ignore flag x fractions {1/2, 1}, every sample subset and tie-break answer (unbounded). AtomsShouldNotBeDeletedTwice iff an atom is in two selected deletion sets, the replacement is non-empty and the flag is off; otherwise atom-count identity.',
          'Exhaustive over the stated small space (quick: 2 cells, 1-2 poses; thorough: 3 cells, 4 poses).', '3/C07'),
  'C08': ('E3 state graph', 'depth-2 operation histories {replace(P,P), replace(A,B), replace(B,A), search(A)} over generated structures with terms, every draw answer of both steps; real MOF files',
-         '6 cells x 7 patterns x poses x placements x 4 history variants x 1-2 copies, structures carry symmetric-consistent bonds/angles/dihedrals inside and across matches; identity replacement leaves atom sequence and term tuple sets unchanged; A->B->A restores the (element, position mod lattice) multiset; after A->B a search for A finds nothing; uio66 / uio66-triclinic / hkust-1 identity and Zr->Hf->Zr.',
+         '8 cells x 7 patterns x poses x placements x 4 history variants x 1-2 copies, structures carry symmetric-consistent bonds/angles/dihedrals inside and across matches; identity replacement leaves atom sequence and term tuple sets unchanged; A->B->A restores the (element, position mod lattice) multiset; after A->B a search for A finds nothing; uio66 / uio66-triclinic / hkust-1 identity and Zr->Hf->Zr.',
          'Default replace mode (replace_all=False). Real-file patterns are used bare (their own bonds would rightly be added).', '3/C08'),
  'C06': ('E3 state graph', 'explicit-state breadth-first search over histories of replacements with a reference structure; every state also checked through the written LAMMPS file',
-         '12 initial typed 6-atom chains (orthorhombic / tilted cell x full tables and all term kinds / nothing / terms without tables / CIF workflow / tables without terms / extra columns) x 9 pattern pairs (terms on retained / inserted / mixed atoms, forwards and reversed, element swap, parameterised self-replacement, single-atom, 4-atom with dihedral+improper, empty) x replace_all, depth 2 (quick) / 3 (thorough); plus docs Example 3 on uio66.cif (metal centre then linker). Resolved view = RefStructure.replace on every transition; independent LAMMPS reader agrees.',
+         '12 initial typed 6-atom chains (orthorhombic / tilted cell x full tables and all term kinds / nothing / terms without tables / CIF workflow / tables without terms / extra columns) x 11 pattern pairs (incl. atoms listed in reverse, same element displaced by 0.03 A) and partial replacements selecting both matches in either sample order; (terms on retained / inserted / mixed atoms, forwards and reversed, element swap, parameterised self-replacement, single-atom, 4-atom with dihedral+improper, empty) x replace_all, depth 2 (quick) / 3 (thorough); plus docs Example 3 on uio66.cif (metal centre then linker). Resolved view = RefStructure.replace on every transition; independent LAMMPS reader agrees.',
          'Histories with overlapping matches are disabled (C07). Known finding K01 (pair table of the CIF workflow) is reported as KNOWN-FINDING; all other aspects of those states are still checked.', '3/C06'),
  'C09': ('E3 state graph', 'explicit-state breadth-first search over operation histories of real Atoms objects with a reference model; invariants I1-I5 in every state; start-from-elsewhere differential',
-         '5 initial states x first operation from the full menu (every identity map / deletion subset on small states), breadth-first to depth 3 (quick) / 4 (thorough) over extend, extend-twice-with-offsets, delete, pop, replicate, copy, subset, replace, save+load; cap 8 atoms; states deduplicated by complete observable content; each new state re-derived by replaying its history from the initial state.',
+         '6 initial states x first operation from the full menu (every identity map / deletion subset on small states), breadth-first to depth 3 (quick) / 4 (thorough) over extend, extend-twice-with-offsets, delete, pop, replicate, copy, subset, replace, save+load; cap 8 atoms; states deduplicated by complete observable content; each new state re-derived by replaying its history from the initial state.',
          'Operation alphabet inside the C06 compatibility domain; inserted-atom positions taken from the result. Trusted: mc/ref/structure.py, mc/ref/lammps.py.', '3/C09'),
  'C20': ('E1+E2', 'bounded-exhaustive enumeration of option sets x formats x modes, CLI run in-process and compared byte-for-byte with an API reference driver under identical draw answers; keyword arguments recorded at the module seam',
          'Every subset of <= 2 (quick) / 3 (thorough) of 7 options + all on + --framework-element x 3 structures x 3 input formats (cif, lmpdat, cml+--extract-uc) x 2 outputs x 3 modes, and the documented example command lines on the real files; every draw answer explored on the CLI side and replayed on the API side.',
